@@ -387,4 +387,128 @@ mutual
           rw [hrem3 k (by simp [hk.1, hk.2.2]), hrem2 k hk.2.1, hrem1 k hk.1]
 end
 
+
+/-! ### the top level of the message (order 0) -/
+
+/-- the groups of order 0 hold text and expressions only: each emits just the string -/
+def Textual0 (rem : Groups) : Prop :=
+  ∃ gs, rem 0 = some gs ∧ ∀ g ∈ gs, simpleG g = true ∧ ∀ e, groupOut e g = e
+
+def XRest.topSegs : XRest → List Str
+  | .nil => []
+  | .cons _ s r => s :: r.topSegs
+
+mutual
+  theorem XNode.good_nums_ne_zero (W : World) (rem : Groups) : ∀ (x : XNode), x.good W rem → 0 ∉ x.nums
+    | .ph n s0 r, h => by
+        simp only [XNode.good] at h
+        obtain ⟨hn, t, a, gs, _, _, _, hr⟩ := h
+        simp only [XNode.nums, List.mem_cons, not_or]
+        exact ⟨fun h0 => hn h0.symm, XRest.good_nums_ne_zero W rem r hr⟩
+  theorem XRest.good_nums_ne_zero (W : World) (rem : Groups) : ∀ (r : XRest), r.good W rem → 0 ∉ r.nums
+    | .nil, _ => by simp [XRest.nums]
+    | .cons x s r, h => by
+        simp only [XRest.good] at h
+        simp only [XRest.nums, List.mem_append, not_or]
+        exact ⟨XNode.good_nums_ne_zero W rem x h.1, XRest.good_nums_ne_zero W rem r h.2⟩
+end
+
+/-- one top-level segment -/
+theorem run_top_seg (b : MB) (Y : Str → List TEvent) (s0 : Str) (st : TrState)
+    (hy : yieldParts b.values s0 = .ok (Y s0)) (hsub : st.sub = none)
+    (htop : s0 = [] ∨ Textual0 st.rem) :
+    ∃ st', runParts b (partOf 0 s0) st = .ok st' ∧ st'.out = st.out ++ Y s0 ∧ st'.sub = none ∧
+      st'.badSub = st.badSub ∧ (∀ k, k ≠ 0 → st'.rem k = st.rem k) ∧ (Textual0 st.rem → Textual0 st'.rem) := by
+  by_cases hs : s0 = []
+  · subst hs
+    have : Y [] = [] := by rw [yieldParts_nil] at hy; exact (Except.ok.inj hy).symm
+    exact ⟨st, by simp [partOf, runParts, pure, Except.pure], by simp [this], hsub, rfl, fun _ _ => rfl, id⟩
+  · have ht : Textual0 st.rem := htop.resolve_left hs
+    obtain ⟨gs, hrem, hgs⟩ := ht
+    have hp : partOf 0 s0 = [(0, s0)] := by
+      have : s0.isEmpty = false := by cases s0 <;> simp_all
+      simp [partOf, this]
+    cases gs with
+    | nil =>
+      refine ⟨st.push (Y s0), ?_, by simp, by simpa using hsub, by simp, fun _ _ => by simp, fun _ => ⟨[], by simpa using hrem, by simp⟩⟩
+      simp [hp, runParts, runPart_dummy b 0 s0 (Y s0) hy st hrem hsub, bind, Except.bind, pure, Except.pure]
+    | cons g more =>
+      have hg := hgs g (by simp)
+      have := runPart_group b 0 s0 (Y s0) hy st g more hrem hg.1 hsub
+      rw [hg.2] at this
+      refine ⟨({ st with rem := setGroups st.rem 0 more } : TrState).push (Y s0), ?_, ?_, ?_, ?_, ?_, ?_⟩
+      · simp only [hp, runParts, this, bind, Except.bind, pure, Except.pure]
+      · simp
+      · simpa using hsub
+      · simp
+      · intro k hk; simp [setGroups_other _ _ _ _ hk]
+      · intro _; exact ⟨more, by simp [setGroups_same], fun g' hg' => hgs g' (by simp [hg'])⟩
+
+theorem run_top (b : MB) (W : World) (Y : Str → List TEvent) : ∀ (r : XRest) (s0 : Str) (st : TrState),
+    r.good W st.rem → r.nums.Nodup → st.sub = none → (∀ s ∈ s0 :: r.segs, yieldParts b.values s = .ok (Y s)) →
+    ((∀ s ∈ s0 :: r.topSegs, s = []) ∨ Textual0 st.rem) →
+    ∃ st', runParts b (XRest.parts 0 s0 r) st = .ok st' ∧ st'.out = st.out ++ (Y s0 ++ r.render W Y) ∧
+      st'.sub = none ∧ st'.badSub = st.badSub
+  | .nil, s0, st, _, _, hsub, hseg, htop => by
+      obtain ⟨st', h1, h2, h3, h4, _, _⟩ := run_top_seg b Y s0 st (hseg s0 (by simp)) hsub
+        (htop.imp (fun h => h s0 (by simp)) id)
+      exact ⟨st', by simpa [XRest.parts] using h1, by simpa [XRest.render] using h2, h3, h4⟩
+  | .cons x s r, s0, st, hgood, hnd, hsub, hseg, htop => by
+      simp only [XRest.good] at hgood
+      simp only [XRest.nums, List.nodup_append] at hnd
+      obtain ⟨hxnd, hrnd, hdisj⟩ := hnd
+      obtain ⟨st1, h1, hout1, hsub1, hbad1, hrem1, htex1⟩ := run_top_seg b Y s0 st (hseg s0 (by simp)) hsub
+        (htop.imp (fun h => h s0 (by simp)) id)
+      have hx0 : 0 ∉ x.nums := XNode.good_nums_ne_zero W st.rem x hgood.1
+      have hr0 : 0 ∉ r.nums := XRest.good_nums_ne_zero W st.rem r hgood.2
+      have hxg : x.good W st1.rem :=
+        XNode.good_congr W st.rem st1.rem x (fun k hk => hrem1 k (fun h => hx0 (h ▸ hk))) hgood.1
+      obtain ⟨st2, hrun2, hout2, hsub2, hbad2, hrem2⟩ :=
+        run_node b W Y x st1 (XRest.parts 0 s r) hxg hxnd hsub1 (fun s' hs' => hseg s' (by simp [XRest.segs, hs']))
+      have hrg : r.good W st2.rem :=
+        XRest.good_congr W st.rem st2.rem r (fun k hk => by
+          have hkx : k ∉ x.nums := fun h => hdisj k h k hk rfl
+          rw [hrem2 k hkx, hrem1 k (fun h => hr0 (h ▸ hk))]) hgood.2
+      have htop2 : (∀ s' ∈ s :: r.topSegs, s' = []) ∨ Textual0 st2.rem := by
+        rcases htop with h | h
+        · left; intro s' hs'
+          apply h s'
+          simp only [List.mem_cons] at hs'
+          rcases hs' with rfl | hs'
+          · simp [XRest.topSegs]
+          · simp [XRest.topSegs, hs']
+        · right
+          obtain ⟨gs, hg0, hgs⟩ := htex1 h
+          exact ⟨gs, by rw [hrem2 0 hx0]; exact hg0, hgs⟩
+      obtain ⟨st3, hrun3, hout3, hsub3, hbad3⟩ :=
+        run_top b W Y r s st2 hrg hrnd hsub2 (fun s' hs' => hseg s' (by
+          simp only [List.mem_cons] at hs'
+          rcases hs' with rfl | hs'
+          · simp [XRest.segs]
+          · simp [XRest.segs, hs'])) htop2
+      refine ⟨st3, ?_, ?_, hsub3, ?_⟩
+      · simp only [XRest.parts]
+        rw [runParts_append, h1]
+        simp only [Except.bind]
+        rw [hrun2, hrun3]
+      · rw [hout3, hout2, hout1]; simp [XRest.render, List.append_assoc]
+      · rw [hbad3, hbad2, hbad1]
+
+/-- **MessageBuffer.translate on a linearised translation tree**: every placeholder is
+    replaced by the element it names, the text segments by what `yield_parts` makes of them,
+    in the order of the translation. -/
+theorem translate_tree (b : MB) (W : World) (Y : Str → List TEvent) (s0 : Str) (r : XRest)
+    (hp0 : plainSeg s0 = true) (hp : r.plain = true)
+    (hgood : r.good W b.events) (hnd : r.nums.Nodup)
+    (hseg : ∀ s ∈ s0 :: r.segs, yieldParts b.values s = .ok (Y s))
+    (htop : (∀ s ∈ s0 :: r.topSegs, s = []) ∨ Textual0 b.events) :
+    b.translate (s0 ++ r.fmt) = .ok (Y s0 ++ r.render W Y) := by
+  unfold MB.translate
+  rw [parseMsg_fmt s0 r hp0 hp]
+  obtain ⟨st', hrun, hout, _, hbad⟩ :=
+    run_top b W Y r s0 { rem := b.events, sub := none, out := [] } hgood hnd rfl hseg htop
+  simp only [bind, Except.bind, hrun]
+  simp at hbad hout
+  simp [hbad, hout, pure, Except.pure]
+
 end Genshi.I18n
